@@ -73,6 +73,25 @@ def gen_cases(rng, tier, scale):
                 for has_else in (False, True):
                     cases.append(chain_case(f'x{k}', kinds, assign, has_else, None, rng, ['exhaustive']))
                     k += 1
+    # the else tag in all its spellings (blanks, tabs and line breaks inside the tag, `^`, `~`): the same chain, the same
+    # answer.  Bodies are markers without whitespace, so a `~` changes nothing.
+    import re, copy
+    SPELL = [('{{else', '{{else\n'), ('{{else', '{{else\t'), ('{{else', '{{else\r\n'), ('{{else', '{{ else'), ('{{else', '{{\telse  '),
+             ('{{else', '{{~else'), ('{{else}}', '{{^}}'), ('{{else}}', '{{ ^ }}'), ('{{else}}', '{{else~}}'), ('{{else}}', '{{~^~}}'),
+             ('{{else ', '{{else\n  '), ('{{else ', '{{else\t'), ('{{else ', '{{else   ')]
+    SHAPES = [(('if',), (False,), True), (('if',), (1,), True), (('unless',), (0,), True), (('if', 'if'), (False, True), True),
+              (('if', 'unless'), (None, ''), True), (('if', 'if'), (0, 0), True), (('if', 'if', 'if'), (False, False, 'x'), False),
+              (('with', 'if'), ({}, 1), True), (('each', 'each'), ([], [0]), True), (('if', 'with', 'each'), (False, None, []), True)]
+    for si, (kinds, assign, has_else) in enumerate(SHAPES):
+        for wi, wrap in enumerate((None, 'with', 'each')):
+            base = chain_case('sp', kinds, assign, has_else, wrap, rng, ['else-spelling'])
+            for pi, (old, new) in enumerate(SPELL):
+                if old not in base['tpl']:
+                    continue
+                c = copy.deepcopy(base)
+                src = base['tpl'].replace(old, new)
+                c2 = rcase(f'sp{si}_{wi}_{pi}', src, base['data'], entry=4, ast=base['ast'], tags=['else-spelling'], kind='chain', kinds=kinds, vals=assign)
+                cases.append(c2)
     n = (600 if tier == 'quick' else 6000) * scale
     for i in range(n):
         ln = rng.randint(1, 6)
